@@ -6,7 +6,7 @@ import random
 import lib
 from props import rwfrag, fragfun
 
-PROG_EVENTS = fragfun.FUN_EVENTS + ["before_while_loop_body", "after_while_loop_iter", "after_while_test"]
+PROG_EVENTS = fragfun.FUN_EVENTS + ["before_while_loop_body", "after_while_loop_iter", "after_while_test", "before_for_iter", "after_for_iter", "before_for_loop_body", "after_for_loop_iter"]
 NAMES = ["a", "b", "c", "d", "r", "i", "j", "f", "g", "h"]
 EXC = fragfun.EXC
 DEPTH = 40
@@ -23,7 +23,7 @@ Definition encx (x : option pexc) : N :=
   match x with None => 0 | Some (PO (FX ENameError)) => 1 | Some (PO (FX ETypeError)) => 2 | Some (PO (FX EZeroDiv)) => 3 | Some (PO FFuel) => 8 | Some (PO (FRet _)) => 6 | Some PBrk => 10 | Some PCnt => 11 end.
 Definition encenv (r : env) (names : list N) := map (fun x => match r x with Some v => encv v | None => (5, 0)%Z end) names.
 Definition guard_eqb (a b : guard) : bool :=
-  match a, b with GTest n, GTest m | GBody n, GBody m | GFun n, GFun m => N.eqb n m | _, _ => false end.
+  match a, b with GTest n, GTest m | GBody n, GBody m | GFun n, GFun m | GFBody n, GFBody m => N.eqb n m | _, _ => false end.
 Definition env0 : env := fun x => if N.eqb x id_range then Some (VBuiltin 0) else None.      (* the builtins of the fragment *)
 Definition mkpol (rules : list (nat * bool * guard)) (log : list entry) (g : guard) : bool :=
   fold_left (fun acc rule => let '(k, b, g') := rule in if Nat.leb k (length log) && guard_eqb g g' then b else acc) rules true.
@@ -52,7 +52,12 @@ class GProg(fragfun.GFun):
         self.in_loop = getattr(self, "in_loop", 0) + 1
         body = self.stmts(depth + 1, self.rng.choice([1, 2]), infun, loops=(var == "i"))
         self.in_loop -= 1
-        out = ["%s = 0" % var, "while %s < %d:" % (var, k), "    %s = %s + 1" % (var, var)] + ["    " + l for l in body]
+        if self.rng.random() < 0.45:
+            # a for loop over a range (sometimes over something that is not iterable, or an empty range)
+            it = self.rng.choice(["range(%d)" % k, "range(%d)" % k, "range(%d)" % k, "range(1, %d)" % (k + 1), "range(%s)" % self.expr(2), "range(0)", self.expr(2)])
+            out = ["for %s in %s:" % (var, it)] + ["    " + l for l in body]
+        else:
+            out = ["%s = 0" % var, "while %s < %d:" % (var, k), "    %s = %s + 1" % (var, var)] + ["    " + l for l in body]
         if self.rng.random() < 0.3:
             out += ["else:"] + ["    " + l for l in self.stmts(depth + 1, 1, infun, loops=False)]
         return out
@@ -133,7 +138,7 @@ def gen_cases(rng, n):
         ev = ev or [rng.choice(PROG_EVENTS)]
         rules = []
         for _ in range(rng.choice([0, 1, 2, 3, 4, 5])):
-            rules.append([rng.randrange(1, 60), rng.random() < 0.3, rng.choice(["test", "body", "body", "fun", "fun"]), rng.randrange(0, 4)])
+            rules.append([rng.randrange(1, 60), rng.random() < 0.3, rng.choice(["test", "body", "body", "fun", "fun", "fbody", "fbody"]), rng.randrange(0, 4)])
         cases.append({"src": g.program(), "events": ev, "guards": rng.random() < 0.75, "rules": rules, "frag": "prog"})
     return cases
 
@@ -154,16 +159,17 @@ def resolve_rules(c):
                         trav(x)
     trav(ast.parse(c["src"]))
     whiles = [i for i, n in enumerate(order) if isinstance(n, ast.While)]
+    fors = [i for i, n in enumerate(order) if isinstance(n, ast.For)]
     defs = [i for i, n in enumerate(order) if isinstance(n, ast.FunctionDef)]
     out = []
     for k, on, kind, w in c["rules"]:
-        pool = defs if kind == "fun" else whiles
+        pool = defs if kind == "fun" else (fors if kind == "fbody" else whiles)
         if pool:
             out.append([k, on, kind, pool[w % len(pool)]])
     return sorted(out, key=lambda x: x[0])
 
 
-GCON = {"test": "GTest", "body": "GBody", "fun": "GFun"}
+GCON = {"test": "GTest", "body": "GBody", "fun": "GFun", "fbody": "GFBody"}
 
 
 def check(ctx, rng, n, extra_cases=()):
@@ -197,7 +203,7 @@ def check(ctx, rng, n, extra_cases=()):
     dist = {"raising": 0, "log_entries": 0, "guards_enabled": 0, "rules": 0, "rules_fired": 0, "exceptions": {},
             "programs_with_recursion": sum(1 for c in cases if "def h" in c["src"]),
             "programs_with_loop_in_function": sum(1 for c in cases if "\n    while" in c["src"] or "\n        while" in c["src"]),
-            "programs_with_break": sum(1 for c in cases if "break" in c["src"]), "programs_with_continue": sum(1 for c in cases if "continue" in c["src"])}
+            "programs_with_for": sum(1 for c in cases if "for " in c["src"]), "programs_with_break": sum(1 for c in cases if "break" in c["src"]), "programs_with_continue": sum(1 for c in cases if "continue" in c["src"])}
     for i in range(0, len(cases), shard):
         rc_, o = res["fragprog_%d" % i]
         vals = lib.parse_marked(o) if rc_ == 0 else []
